@@ -95,13 +95,18 @@ def gen_spec(rng, flavour, is_main=False, prefix=None):
         s["nanon"] = rng.randint(0, 2); s["nenum"] = rng.randint(0, 2); s["nstruct"] = rng.randint(0, 2); s["nstr"] = rng.randint(0, 3)
     elif flavour == "plain":
         s["nstruct"] = rng.randint(0, 1)
+    elif flavour == "ifaces":
+        # >= 2 interfaces x >= 2 implementing types (>= 4 vtables), >= 4 type ids, closures with captures, strings, enums
+        s["nif"] = rng.randint(2, 3); s["nty"] = rng.randint(2, 3); s["ntid"] = 4; s["nfn"] = rng.randint(1, 3)
+        s["nstr"] = rng.randint(2, 4); s["nenum"] = rng.randint(1, 2); s["nanon"] = rng.randint(0, 1)
     s["prefix"] = prefix if prefix is not None else rng.choice([0, 0, 3, 40])
     if s["ntid"] >= 5: s["nstruct"] = max(1, s["nstruct"])
     if s["ntid"] == 5 and s["nstruct"] == 0: s["ntid"] = 4
     return s
 
 def lit_counts(s):
-    return {"func": s["nfn"], "struct": s["nstruct"] + s["nanon"], "interface": 1 if s["ntid"] else 0, "enum": s["nenum"]}
+    return {"func": s["nfn"], "struct": s["nstruct"] + s["nanon"] + s.get("nty", 0),
+            "interface": (1 if s["ntid"] else 0) + s.get("nif", 0), "enum": s["nenum"]}
 
 def render(s, modname, tag):
     """Ferret source of one module. Imports are (path, alias, exists) on consecutive lines from line 1 (main: after std/io)."""
@@ -115,13 +120,32 @@ def render(s, modname, tag):
     if s["ntid"]: L.append("type Any interface {};")
     for i in range(s["nenum"]): L.append("type E%d enum { A%d, B%d, C%d };" % (i, i, i, i))
     for i in range(s["nstruct"]): L.append("type S%d struct { .X: i32, .Y: i64 };" % i)
+    nif, nty = s.get("nif", 0), s.get("nty", 0)
+    for j in range(nif): L.append("type I%d%s interface { f%d() -> i32, };" % (j, modname, j))
+    for i in range(nty): L.append("type T%d%s struct { .A: i32, .B: i32 };" % (i, modname))
+    for i in range(nty):
+        for j in range(nif):
+            L.append("fn (t: T%d%s) f%d() -> i32 { return t.A * %d + %d; }" % (i, modname, j, i + 1, j + tag))
+    if nty: L.append("fn New(x: i32) -> T0%s { return { .A = x, .B = 1 } as T0%s; }" % (modname, modname))
     for i in range(s["prefix"]):
         L.append("fn pad%d(x: i32) -> i32 {\n    let y: i32 = x + %d;\n    return y * 2;\n}" % (i, i + tag))
     L.append("fn Run(x: i32) -> i32 {")
     L.append("    let acc: i32 = x + %d;" % tag)
+    if nif: L.append("    let k: i32 = %d;" % (tag + 3))
     for i in range(s["nfn"]):
-        L.append("    let f%d := fn(y: i32) -> i32 { return y + %d; };" % (i, i + 1))
+        if nif: L.append("    let f%d := fn(y: i32) -> i32 { return y * k + x + %d; };" % (i, i + 1))     # closure with captures
+        else: L.append("    let f%d := fn(y: i32) -> i32 { return y + %d; };" % (i, i + 1))
         L.append("    acc = acc + f%d(x);" % i)
+    for i in range(nty):
+        L.append("    let t%d: T%d%s = { .A = x + %d, .B = %d };" % (i, i, modname, i, i))
+        for j in range(nif):
+            L.append("    let w%d_%d: I%d%s = t%d;" % (i, j, j, modname, i))
+            L.append("    acc = acc + w%d_%d.f%d();" % (i, j, j))
+    if nty and s["ntid"]: L.append("    let vt: Any = t0;")
+    for alias in s.get("xconv", []):            # interface of this module implemented by a type of an imported module
+        L.append("    let q%s := %s::New(2);" % (alias, alias))
+        L.append("    let cw%s: I0%s = q%s;" % (alias, modname, alias))
+        L.append("    acc = acc + cw%s.f0();" % alias)
     for i in range(s["nanon"]):
         L.append("    let a%d: struct { .A: i32, .B: i32 } = { .A = x, .B = %d };" % (i, i))
         L.append("    acc = acc + a%d.A;" % i)
@@ -131,7 +155,7 @@ def render(s, modname, tag):
     for i in range(s["ntid"]):
         L.append("    let v%d: Any = %s;" % (i, TID_VALUES[i]))
     for i in range(s["nstr"]):
-        L.append('    let t%d: str = "%s-%d";' % (i, modname, i))
+        L.append('    let s%d: str = "%s-%d";' % (i, modname, i))
     for path, alias, ex in s["imports"]:
         if ex and not s["is_main"]: L.append("    acc = acc + %s::Run(x);" % alias)
     L.append("    return acc;")
@@ -183,6 +207,41 @@ class Project:
         return sorted(P)
     def roots(self): return [self.rank["global"], self.node("main")]
 
+class FileProject:
+    """A fixed set of source files (corpus entries, hand-written probes): compiled repeatedly, not modelled."""
+    def __init__(self, pname, files):
+        self.pname = pname; self._files = dict(files); self.specs = {}
+    def files(self): return dict(self._files)
+    def write(self, d):
+        os.makedirs(d, exist_ok=True)
+        for fn, txt in self._files.items():
+            open(os.path.join(d, fn), "w").write(txt)
+
+def corpus_projects():
+    """corpus/C14/<name>/*.fer : minimised past failures, compiled k times on every run"""
+    out = []
+    base = os.path.join(common.VERIF, "corpus", "C14")
+    if os.path.isdir(base):
+        for name in sorted(os.listdir(base)):
+            d = os.path.join(base, name)
+            fs = {fn: open(os.path.join(d, fn)).read() for fn in sorted(os.listdir(d)) if fn.endswith(".fer")} if os.path.isdir(d) else {}
+            if "main.fer" in fs: out.append((name, FileProject(name, fs)))
+    return out
+
+def alias_probe():
+    """Four imported modules export a type with the SAME name; main converts a value of each to its own interface.
+    lookupTypeSymbol (mir/gen/interface.go, builder.go) ranges over mod.ImportAliasMap and takes the first module
+    that has a type of that name [open finding F-C14-TYPE-ALIAS-LOOKUP]."""
+    fs = {}
+    for n in range(4):
+        fs["m%d.fer" % n] = ("type Sq struct { .S: i32 };\nfn (s: Sq) area() -> i32 { return s.S * s.S + %d; }\n"
+                             "fn (s: Sq) name() -> i32 { return %d; }\nfn NewSq(x: i32) -> Sq { return { .S = x } as Sq; }\n" % (n, n))
+    fs["main.fer"] = ('import "std/io";\n' + "".join('import "p/m%d" as m%d;\n' % (n, n) for n in range(4)) +
+                      "type Shape interface { area() -> i32, };\ntype Named interface { name() -> i32, };\nfn main() {\n" +
+                      "".join("    let a%d := m%d::NewSq(%d);\n    let s%d: Shape = a%d;\n    let n%d: Named = a%d;\n" % (n, n, n + 2, n, n, n, n) for n in range(4)) +
+                      "    io::Println(s0.area(), s1.area(), s2.area(), s3.area(), n0.name(), n1.name(), n2.name(), n3.name());\n}\n")
+    return FileProject("p", fs)
+
 def gen_project(rng, flavour, idx):
     """main + 2..4 siblings (+ optional second level); the first-spawned sibling gets a long prefix before its
     first literal and the last a short one, so that GOMAXPROCS=1 and =16 take different interleavings."""
@@ -201,6 +260,9 @@ def gen_project(rng, flavour, idx):
         for n in rng.sample(names, rng.randint(1, len(names))):
             specs[n]["imports"].append(("%s/z0" % pname, "z0", True))
     specs["main"] = main
+    if flavour == "ifaces":
+        for n, sp in specs.items():
+            sp["xconv"] = [a for (pth, a, ex) in sp["imports"] if ex and specs[a].get("nty")]
     return Project(pname, specs)
 
 # ------------------------------------------------------------------ CLI runs
@@ -474,6 +536,11 @@ def stage_cli(run, cases, work, plan, k):
         d = os.path.join(work.sub("cli%d" % i), pr.pname)
         pr.write(d)
         projs.append((i, flavour, target, pr, d))
+    for name, pr in corpus_projects():
+        i = len(projs)
+        d = os.path.join(work.sub("cli%d" % i), pr.pname)
+        pr.write(d)
+        projs.append((i, "corpus_" + name, "native", pr, d))
     futs = [POOL.submit(compile_runs, t[3], t[4], k, t[2]) for t in projs]
     return lambda: _collect_cli(run, cases, projs, futs)
 
@@ -493,14 +560,24 @@ def _collect_cli(run, cases, projs, futs):
             j, what = diff
             fn_names = [observed_fn_names(pr, o) for o in obs]
             tid_orders = [tuple(re.findall(r"^data \$(__typeid_\d+)", "".join(o["files"].values()), re.M)) for o in obs]
+            vt_orders = [tuple(re.findall(r"^data \$(__vtable_\d+)", "".join(o["files"].values()), re.M)) for o in obs]
             if len(set(json.dumps(x, sort_keys=True) for x in fn_names)) > 1: key = "lit-names-schedule-dependent"
             elif len(set(tid_orders)) > 1: key = "typeids-map-order"
+            elif len(set(vt_orders)) > 1: key = "vtables-map-order"
             else: key = "cli-nondeterministic:" + what.split(" ")[0]
             run.violation(key, "same project compiled twice gives different results: %s (run 0 GOMAXPROCS=%s vs run %d GOMAXPROCS=%s)"
                           % (what, obs[0]["procs"], j, obs[j]["procs"]), replay_of(pr, obs, j))
             continue
         # model prediction: function-literal names per module (local numbering), order of the type-id data
         o = obs[0]
+        for fn, txt in sorted(o["files"].items()):
+            for kind, pat in (("vtables", r"^data \$__vtable_"), ("typeids", r"^data \$__typeid_"), ("strings", r"^data \$str"),
+                              ("enumtables", r"^data \$enumtbl"), ("closures", r"function .*__func_lit__")):
+                n = len(re.findall(pat, txt, re.M))
+                if n >= 2: run.count("cli_files_with_ge2_" + kind)
+                if n >= 4: run.count("cli_files_with_ge4_" + kind)
+        if isinstance(pr, FileProject):
+            continue
         if target == "native":
             got = observed_fn_names(pr, o)
             P = pr.events()
@@ -591,7 +668,21 @@ def stage_findings(run, work, k):
     for name, pr in sorted(fp.items()):
         d = os.path.join(work.sub("find_" + name), pr.pname); pr.write(d); items.append((name, pr, d))
     futs = [POOL.submit(compile_runs, t[1], t[2], k, "native", True) for t in items]
-    return lambda: _collect_findings(run, fp, items, futs)
+    ap = alias_probe(); apd = os.path.join(work.sub("find_alias"), ap.pname); ap.write(apd)
+    afut = POOL.submit(compile_runs, ap, apd, max(k, 8), "native")
+    return lambda: (_collect_findings(run, fp, items, futs), _collect_alias(run, ap, afut))
+
+def _collect_alias(run, ap, afut):
+    obs = afut.result()
+    run.count("cli_compiles", len(obs))
+    distinct = len(set(json.dumps(o["files"], sort_keys=True) for o in obs))
+    run.extra.setdefault("open_finding_cli_distinct_outputs", {})["type_alias_lookup"] = distinct
+    diff = first_difference(obs)
+    if diff is not None:
+        j, what = diff
+        run.violation("C14-typename-alias-map-order", "a type name exported by several imported modules is resolved by ranging over "
+                      "mod.ImportAliasMap: the vtables of main bind the methods of a different module from run to run (%s; %d distinct "
+                      "outputs in %d compiles) — nondeterministic and a miscompilation" % (what, distinct, len(obs)), replay_of(ap, obs, j))
 
 def _collect_findings(run, fp, items, futs):
     allobs = {n: f.result() for (n, _, _), f in zip(items, futs)}
@@ -630,6 +721,47 @@ def _collect_findings(run, fp, items, futs):
                   "goroutine calls processModule first", rp)
 
 # ------------------------------------------------------------------ main
+# `range` over Go maps on the path from MIR generation to the emitted bytes, and what exercises each
+KNOWN_MAP_RANGES = {
+    "internal/mir/gen/mirgen.go:g.vtables": "keys sorted since 5615a8f; projects `ifaces` (>= 4 vtables per module, cross-module conversions) and corpus/C14/vtables",
+    "internal/mir/gen/mirgen.go:g.typeIDGlobals": "copied into mir.Module.TypeIDs (a map; order irrelevant); projects `tids`/`ifaces` (>= 4 type ids per module)",
+    "internal/codegen/qbe_embeddings/qbe.go:g.mirMod.TypeIDs": "keys sorted since d3c2a82; hook op `typeids` (16 repetitions per map) + projects `tids`/`ifaces`; theorem C14_typeids_perm_indep",
+    "internal/codegen/qbe_embeddings/qbe.go:g.hoistedAllocaIDs": "only deletes every key (order irrelevant)",
+    "internal/mir/gen/interface.go:g.mod.ImportAliasMap": "first imported module exporting a type of that name wins: deterministic only when the name is unique among the imports; `ifaces` projects convert imported types (unique names); same-name case = open finding F-C14-TYPE-ALIAS-LOOKUP (alias probe, compiled 8x)",
+    "internal/mir/gen/builder.go:b.gen.mod.ImportAliasMap": "same lookup as interface.go (method calls on imported named types); covered by the same projects / finding",
+    "internal/mir/gen/builder.go:captures": "a slice parameter (the name is shared with the map field b.captures, which is only indexed); closures with captured variables are in the `ifaces` projects",
+    "internal/codegen/wasm/emit.go:gen.imports": "names collected then sorted; project `wasm` (.wasm bytes compared)",
+    "internal/codegen/wasm/emit.go:gen.funcs": "names collected then sorted; project `wasm`",
+    "internal/codegen/wasm/emit.go:g.funcs": "collectImports: fills the imports map (sorted later); only the order of error reports could vary — not exercised",
+    "internal/pipeline/runtime_audit.go:p.ctx.Modules": "adds diagnostics only when a native symbol has no runtime implementation — not reachable with a consistent runtime, not exercised",
+    "internal/pipeline/runtime_audit.go:mod.ModuleScope.GetAllSymbols()": "as above",
+}
+
+def scan_map_ranges():
+    """Heuristic source scan (evidence only): `range X` where X's last identifier is declared with a map type in the
+    same package directory. Sites not in KNOWN_MAP_RANGES are listed as unreviewed."""
+    dirs = ["internal/mir/gen", "internal/mir", "internal/codegen/qbe_embeddings", "internal/codegen/wasm", "internal/pipeline"]
+    extra_maps = {"Modules", "DepGraph", "ImportAliasMap", "TypeIDs", "GetAllSymbols()", "Artifacts"}
+    found = {}
+    for d in dirs:
+        full = os.path.join(common.REPO, d)
+        if not os.path.isdir(full): continue
+        srcs = {fn: open(os.path.join(full, fn)).read() for fn in sorted(os.listdir(full)) if fn.endswith(".go") and not fn.endswith("_test.go")}
+        names = set(extra_maps)
+        for txt in srcs.values():
+            names |= set(re.findall(r"^\s*(\w+)\s+map\[", txt, re.M))
+            names |= set(re.findall(r"(\w+)\s*:?=\s*make\(map\[", txt))
+            names |= set(re.findall(r"(\w+)\s*:=\s*map\[", txt))
+        for fn, txt in srcs.items():
+            for m in re.finditer(r"\brange\s+([\w\.\(\)]+)\s*\{", txt):
+                expr = m.group(1)
+                if expr.split(".")[-1] in names:
+                    found["%s/%s:%s" % (d, fn, expr)] = None
+    out = {}
+    for site in sorted(found):
+        out[site] = KNOWN_MAP_RANGES.get(site, "UNREVIEWED (local lookup/index map or new code): differential CLI projects are the only cover")
+    return out
+
 def report_once(run):
     """one VIOLATION line per key: the first failing input of a family is the replay"""
     orig = run.violation
@@ -664,7 +796,8 @@ def main(run):
                        "all interleavings are proved in the model and sampled on the implementation (k runs under GOMAXPROCS 1/2/16)"]
     run.extra["gates"] = ["generated projects keep diagnostics of different goroutines on distinct (file, line) keys [F-C14-SAMELINE-DIAG]",
                           "no module is both missing and imported by two modules [F-C14-MISSING-SITE]",
-                          "import cycles in generated projects can be closed by one module only [F-C14-CYCLE-SITE]"]
+                          "import cycles in generated projects can be closed by one module only [F-C14-CYCLE-SITE]",
+                          "type names exported by the modules of a generated project are unique across the project [F-C14-TYPE-ALIAS-LOOKUP]"]
     # source scan: the only goroutines of the pipeline are the parser goroutines
     gos = []
     pd = os.path.join(common.REPO, "internal", "pipeline")
@@ -680,8 +813,9 @@ def main(run):
     lap("build")
     # the CLI compilations run in the background while the proof and the in-process stages are checked
     k = 60 if thorough else 6
-    plan = [("lits", "native"), ("lits", "native"), ("tids", "native"), ("wasm", "wasm")]
-    if thorough: plan = plan * 2 + [("lits", "native"), ("wasm", "native")]
+    plan = [("lits", "native"), ("ifaces", "native"), ("ifaces", "native"), ("tids", "native"), ("wasm", "wasm")]
+    if thorough: plan = plan * 2 + [("lits", "native"), ("wasm", "native"), ("ifaces", "native")]
+    run.extra["map_range_sites"] = scan_map_ranges()
     clicases = []
     pending = [stage_cli(run, clicases, work, plan, k if not thorough else 30),
                stage_cli_errors(run, clicases, work, k if not thorough else 30),
